@@ -162,6 +162,8 @@ def tags(prog):
                 # k is a key of t and of u: with it in the frame the rows of the top relation are pairwise different
                 if "k" in names and depth == 0 and steps[0]["op"] == "from":
                     t.add("setop-top-has-key")
+            if op in ("append", "remove", "intersect") and any(x["op"] in ("append", "remove", "intersect") for x in s["with"]):
+                t.add("setop-nested")
             if op in ("join", "append", "remove", "intersect"):
                 walk(s["with"], [], depth + 1)
             names = _names_after(names, s)
